@@ -77,6 +77,7 @@ class Ctx:
   # -- obligations
   def ob(self, rule, fn, desc, ok, msg='', where=None, nontrivial=True, detail=None):
     """record one rule instance; a failed one is a violation keyed (rule, fn, desc)"""
+    msg = str(msg)[:700] if msg else msg
     rec = {'rule': rule, 'function': fn, 'instance': desc, 'ok': bool(ok), 'where': where, 'nontrivial': nontrivial}
     if msg and not ok:
       rec['note'] = msg
